@@ -58,6 +58,9 @@ def gen_country(rng, key, role, n, allow_portfolio, grid=True):
     if firm['form'] == 'fixed' and rng.random() < 0.35:
         cap = {'ai': par(0.4, 0.8), 'af': par(0.1, 0.4)}
         firm['margin'] = rng.choice([0.1, 0.125, 0.2, 0.25])
+    elif firm['form'] == 'fixed' and rng.random() < 0.3:
+        # a profitable firm in a country without capitalists: it keeps its profits (no dividend recipient exists)
+        firm['margin'] = rng.choice([0.1, 0.125, 0.25])
     custom = None
     if rng.random() < 0.3:
         # a pair of user-defined sectors whose CONSTRUCTORS book a cash flow (a grant) between them
@@ -184,6 +187,26 @@ def gen_spec(rng, n_zones=None, allow_fed=True, ext=None, maxtime=None, grid=Tru
                 imp['residual_foreign'] = True
                 imp['home_share'] = rng.choice([0.5, 0.75, 0.875])
             spec['imports'].append(imp)
+    return spec
+
+
+def add_param_chain(rng, spec, length=None):
+    """A chain of scalar parameters running through several sectors: the first is a literal, each further one is the
+    previous one (another sector's variable, addressed by its requested name) plus a constant.  Their time-zero values
+    have to be resolved whatever the order in which the sectors - and hence the equations - are declared."""
+    cands = []
+    for z in spec['zones']:
+        for c in z['countries']:
+            if c['role'] == 'central':
+                cands.append([c['key'], 'GOVLIKE'])
+            else:
+                cands += [[c['key'], 'HH'], [c['key'], 'BUS'], [c['key'], 'TF'], [c['key'], 'GOOD'], [c['key'], 'LAB']]
+                if c['role'] == 'single':
+                    cands.append([c['key'], 'GOVLIKE'])
+    n = length or rng.randint(3, 6)
+    rng.shuffle(cands)
+    spec['param_chain'] = {'sectors': cands[:n], 'base': rng.choice(['0.02', '1.5', '0.25']),
+                           'steps': [rng.choice(['0.01', '0.5', '2.0']) for _ in range(n)]}
     return spec
 
 
@@ -485,6 +508,20 @@ def _build(spec, model=None, holder=None, order_seed=None, codes=None, ckey_map=
         gift_var[gf.get('id', i)] = var
         mod.RegisterCashFlow(src, dst, var, is_income_source=gf['inc_src'], is_income_dest=gf['inc_dst'])
         b.flows.append({'kind': 'gift', 'src': src, 'dst': dst, 'var': var, 'spec': gf})
+    pc = spec.get('param_chain')
+    if pc:
+        prev = None
+        for i, ref in enumerate(pc['sectors']):
+            try:
+                sec = sector_for(b, ref)
+            except KeyError:
+                continue
+            var = 'PCH%d' % i
+            if prev is None:
+                sec.AddVariable(var, 'first link of a parameter chain', pc['base'])
+            else:
+                sec.AddVariable(var, 'link of a parameter chain', '%s + %s' % (prev[0].GetVariableName(prev[1]), pc['steps'][i]))
+            prev = (sec, var)
     mod.MaxTime = spec['maxtime']
     mod.EquationSolver.MaxIterations = max_iter
     if tol is not None:
@@ -546,10 +583,11 @@ def shape_of(spec):
     for z in spec['zones']:
         f = z['gov']['form'][:4] + ('+m' if z['gov']['money'] else '') + ('+d' if z['gov']['deposits'] else '')
         regs = [c for c in z['countries'] if c['role'] != 'central']
-        firms = ''.join(sorted(set(c['firm']['form'][0] + ('c' if c.get('cap') else '') + ('u' if c.get('custom') else '') +
+        firms = ''.join(sorted(set(c['firm']['form'][0] + ('c' if c.get('cap') else ('r' if c['firm'].get('margin') else '')) + ('u' if c.get('custom') else '') +
                                    ('2' if c.get('second_market') else '')
                                    for c in regs)))
         port = ''.join(sorted(set((c['hh']['portfolio'] or '-')[0] for c in regs)))
         parts.append('%s:%s:%s:%s' % ('fed' if z['kind'] == 'federation' else 'one', f, firms, port))
     return '|'.join(parts) + ('|ext' if spec['ext'] else '') + ('|g%d' % len(spec['gifts'])) + \
-        ('|i%d' % len(spec['imports'])) + ('|row' if spec.get('row') else '')
+        ('|i%d' % len(spec['imports'])) + ('|row' if spec.get('row') else '') + \
+        ('|pchain%d' % len(spec['param_chain']['sectors']) if spec.get('param_chain') else '')
